@@ -202,6 +202,7 @@ type Exec struct {
 	funcsUsed map[string]string
 	ifaceFns  map[string]types.Type
 	pure      map[*ssa.Function]bool
+	nonneg    map[string]bool // pointer terms known to be >= 0 (not allocated by this activation)
 }
 
 func (ex *Exec) sym(prefix string) string {
@@ -342,6 +343,9 @@ func (ex *Exec) readObj(st *State, name, ptr string) string {
 	}
 	if isNegLit(ptr) {
 		return "(select " + h + " " + ptr + ")"
+	}
+	if ex.nonneg[ptr] {
+		return "(select " + ex.frozen(name) + " " + ptr + ")"
 	}
 	return "(ite (< " + ptr + " 0) (select " + h + " " + ptr + ") (select " + ex.frozen(name) + " " + ptr + "))"
 }
